@@ -44,7 +44,8 @@ type GposValueRecord struct {
 // valueFormat determines which fields are present in the binary
 // representation.
 func readValueRecord(p *parser.Parser, valueFormat uint16) (*GposValueRecord, error) {
-	if valueFormat == 0 {
+	if valueFormat&0x00FF == 0 {
+		// no fields (the upper bits are reserved): the record is empty
 		return nil, nil
 	}
 
